@@ -315,6 +315,19 @@ pub fn gen_c15<W: Write>(out: &mut W, thorough: bool, seed: u64) {
                 next += 1;
             }
         }
+        // site-count errors first (the spline stays unsolved): one site too many without least squares, one
+        // too few with and without, data of another length than the sites
+        {
+            let mut more = tau.clone();
+            more.push(tau[tau.len() - 1]);
+            let mut ym = ytoks.clone();
+            ym.push(ytoks[0].clone());
+            writeln!(out, "csolve 1 {} {} 0 {} {} {}", ln, rn, more.len(), join_h(&more), ym.join(" ")).unwrap();
+            writeln!(out, "csolve 1 {} {} 0 {} {} {}", ln, rn, tau.len() - 1, join_h(&tau[1..]), ytoks[1..].join(" ")).unwrap();
+            writeln!(out, "csolve 1 {} {} 1 {} {} {}", ln, rn, tau.len() - 1, join_h(&tau[1..]), ytoks[1..].join(" ")).unwrap();
+            writeln!(out, "csolve 1 {} {} 0 {} {} {}", ln, rn, tau.len(), join_h(&tau), ytoks[1..].join(" ")).unwrap();
+            writeln!(out, "ppev 1 0 F{}", hf(t[0])).unwrap();
+        }
         writeln!(out, "csolve 1 {} {} 0 {} {} {}", ln, rn, tau.len(), join_h(&tau), ytoks.join(" ")).unwrap();
         writeln!(out, "spc 1").unwrap();
         // values and derivatives on a dense grid incl. sites, knots and end points
